@@ -83,7 +83,8 @@ class Run:
             else:
                 new.append((k, f))
         stale = [k for k, e in known.items() if e.get("status") == "known" and k not in matched]
-        outdir = os.path.join(VERIF, "out", self.prop)
+        OUTBASE = os.environ.get("VERIF_OUT_DIR", VERIF)
+        outdir = os.path.join(OUTBASE, "out", self.prop)
         os.makedirs(outdir, exist_ok=True)
         for fn in os.listdir(outdir):
             try: os.unlink(os.path.join(outdir, fn))
@@ -124,8 +125,8 @@ class Run:
         cov.update(self.coverage)
         ev = {"property_id": self.prop, "tier": self.tier, "seed": self.seed, "level": level, "coverage": cov,
               "assumptions": self.assumptions, "wall_s": round(wall, 2), "violations": len(new)}
-        os.makedirs(os.path.join(VERIF, "evidence"), exist_ok=True)
-        with open(os.path.join(VERIF, "evidence", "%s.json" % self.prop), "w") as fh:
+        os.makedirs(os.path.join(OUTBASE, "evidence"), exist_ok=True)
+        with open(os.path.join(OUTBASE, "evidence", "%s.json" % self.prop), "w") as fh:
             json.dump(ev, fh, indent=1, default=str)
         print("%s %s: obligations=%d discharged=%d known=%d new=%d wall=%.1fs" % (
             self.prop, self.tier, self.obligations, self.discharged, len(kf), len(new), wall))
